@@ -26,6 +26,7 @@ type SpecEnv struct {
 	bound  map[string]bool
 	facts  *[]string // type invariants of heap values read by the formula being translated
 	goal   bool      // the formula is to be proved (facts become premises) rather than assumed (facts are conjoined)
+	deriveDepth int
 }
 
 var untypedInt = types.Typ[types.UntypedInt]
@@ -656,8 +657,18 @@ func (e *SpecEnv) selector(n *ESel) (Val, error) {
 					return Val{T: c.subRef(pt.Elem(), i, x.T), Typ: types.NewPointer(ft)}, nil
 				}
 				h, srt := c.fieldHeap(pt.Elem(), i)
-				rt := "(select " + c.heapGet(e.cur, h, srt) + " " + x.T + ")"
+				hv := c.heapGet(e.cur, h, srt)
+				rt := "(select " + hv + " " + x.T + ")"
 				e.readFact(rt, ft)
+				if e.facts != nil {
+					switch ft.Underlying().(type) {
+					case *types.Pointer, *types.Interface, *types.Map:
+						// references stored in a heap version existed when it was made
+						if fr, ok := c.frontier[hv]; ok && fr != "" {
+							*e.facts = append(*e.facts, c.typeFacts(rt, ft, fr))
+						}
+					}
+				}
 				return Val{T: rt, Typ: ft}, nil
 			}
 		}
@@ -970,21 +981,7 @@ func (e *SpecEnv) call(n *ECall) (Val, error) {
 			if err != nil {
 				return Val{}, err
 			}
-			k, err := e.ghostKey(v)
-			if err != nil {
-				return Val{}, err
-			}
-			srt, t, err := e.ghostSort(g)
-			if err != nil {
-				return Val{}, err
-			}
-			h := c.ghostHeap(name, srt)
-			gt := "(select " + c.heapGet(e.cur, h, c.heapSort[h]) + " " + k + ")"
-			if c.Mode == ModeBV && (g.Val == "mathint" || g.Val == "int") {
-				// counters kept in ghost state never approach 2^62 (stated assumption)
-				c.Decls = append(c.Decls, "(assert (and (bvsle (_ bv0 64) "+gt+") (bvsle "+gt+" (_ bv4611686018427387904 64))))")
-			}
-			return Val{T: gt, Typ: t}, nil
+			return e.ghostRead(g, v, e.deriveDepth)
 		}
 		if u, ok := c.W.Specs.UFs[name]; ok {
 			return e.applyUF(u, n.Args)
@@ -1342,7 +1339,7 @@ func (e *SpecEnv) targets(x Expr) ([]havocTarget, error) {
 					return e.objTargets(sub, ft), nil
 				}
 				h, _ := c.fieldHeap(pt.Elem(), i)
-				return []havocTarget{{h, base.T}}, nil
+				return []havocTarget{{h, base.T, ""}}, nil
 			}
 		}
 		return nil, fmt.Errorf("assigns: no field %s", n.Sel)
@@ -1371,7 +1368,7 @@ func (e *SpecEnv) targets(x Expr) ([]havocTarget, error) {
 					return nil, fmt.Errorf("elems of non-slice")
 				}
 				h, _ := c.memHeap(sl.Elem())
-				return []havocTarget{{h, "(sl.base " + s.T + ")"}}, nil
+				return []havocTarget{{h, "(sl.base " + s.T + ")", ""}}, nil
 			case "entries":
 				m, err := e.term(n.Args[0])
 				if err != nil {
@@ -1382,7 +1379,7 @@ func (e *SpecEnv) targets(x Expr) ([]havocTarget, error) {
 					return nil, fmt.Errorf("entries of non-map")
 				}
 				d, v := c.mapHeaps(mt)
-				return []havocTarget{{d, m.T}, {v, m.T}, {e.f.mapLenHeap(), m.T}}, nil
+				return []havocTarget{{d, m.T, ""}, {v, m.T, ""}, {e.f.mapLenHeap(), m.T, ""}}, nil
 			case "allof":
 				// every object of a type: allof(T.f)
 				return nil, fmt.Errorf("allof not supported")
@@ -1392,16 +1389,7 @@ func (e *SpecEnv) targets(x Expr) ([]havocTarget, error) {
 				if err != nil {
 					return nil, err
 				}
-				k, err := e.ghostKey(v)
-				if err != nil {
-					return nil, err
-				}
-				srt, _, err := e.ghostSort(g)
-				if err != nil {
-					return nil, err
-				}
-				h := c.ghostHeap(id.Name, srt)
-				return []havocTarget{{h, k}}, nil
+				return e.ghostTargets(g, v, e.deriveDepth)
 			}
 		}
 	}
@@ -1422,15 +1410,15 @@ func (c *Ctx) objTargets(r string, t types.Type) []havocTarget {
 				out = append(out, c.objTargets(c.subRef(t, i, r), ft)...)
 			} else {
 				h, _ := c.fieldHeap(t, i)
-				out = append(out, havocTarget{h, r})
+				out = append(out, havocTarget{h, r, ""})
 			}
 		}
 	case *types.Array:
 		h, _ := c.memHeap(u.Elem())
-		out = append(out, havocTarget{h, r})
+		out = append(out, havocTarget{h, r, ""})
 	default:
 		h, _ := c.cellHeap(t)
-		out = append(out, havocTarget{h, r})
+		out = append(out, havocTarget{h, r, ""})
 	}
 	return out
 }
@@ -1519,4 +1507,150 @@ func (e *SpecEnv) triggerFor(n *EQuant) []string {
 		}
 		return out
 	}
+}
+
+// deriveType resolves the concrete type a derive declaration is about.
+func (e *SpecEnv) deriveType(d *DeriveDecl) (types.Type, *ssa.Package) {
+	sp := e.c.W.Prog.ImportedPackage(d.Pkg)
+	if sp == nil {
+		return nil, nil
+	}
+	name := strings.TrimPrefix(d.Type, "*")
+	obj := sp.Pkg.Scope().Lookup(name)
+	if obj == nil {
+		return nil, nil
+	}
+	if strings.HasPrefix(d.Type, "*") {
+		return types.NewPointer(obj.Type()), sp
+	}
+	return obj.Type(), sp
+}
+
+// ghostRead reads ghost field g of v, honouring derive declarations: for an
+// object of a concrete in-repo type the field is defined by its real state.
+func (e *SpecEnv) ghostRead(g *GhostDecl, v Val, depth int) (Val, error) {
+	c := e.c
+	k, err := e.ghostKey(v)
+	if err != nil {
+		return Val{}, err
+	}
+	srt, t, err := e.ghostSort(g)
+	if err != nil {
+		return Val{}, err
+	}
+	h := c.ghostHeap(g.Name, srt)
+	gt := "(select " + c.heapGet(e.cur, h, c.heapSort[h]) + " " + k + ")"
+	if c.Mode == ModeBV && (g.Val == "mathint" || g.Val == "int") {
+		// counters kept in ghost state never approach 2^62 (stated assumption)
+		c.Decls = append(c.Decls, "(assert (and (bvsle (_ bv0 64) "+gt+") (bvsle "+gt+" (_ bv4611686018427387904 64))))")
+	}
+	res := gt
+	if depth < 1 {
+		for _, d := range c.W.Specs.Derives {
+			if d.Ghost != g.Name {
+				continue
+			}
+			dt, dpkg := e.deriveType(d)
+			if dt == nil {
+				continue
+			}
+			var cond string
+			var this Val
+			if _, isIface := v.Typ.Underlying().(*types.Interface); isIface {
+				cond = eq("(if.typ "+v.T+")", c.typeID(dt))
+				this = Val{T: "(if.ref " + v.T + ")", Typ: dt}
+			} else if types.Identical(v.Typ, dt) {
+				cond = "true"
+				this = v
+			} else {
+				continue
+			}
+			ne := e.clone()
+			ne.vars["this"] = this
+			ne.bound["this"] = true
+			ne.locals = false
+			ne.pkg = dpkg
+			ne.deriveDepth = depth + 1
+			dv, err := ne.term(d.Body)
+			if err != nil {
+				return Val{}, fmt.Errorf("derive %s: %v", d.Text, err)
+			}
+			if g.Val == "mathint" || g.Val == "int" {
+				if c.Mode == ModeBV {
+					dv = e.coerceBV(dv, types.Typ[types.Int64])
+				}
+			}
+			res = ite(cond, dv.T, res)
+		}
+	}
+	if c.Mode == ModeBV && (g.Val == "mathint" || g.Val == "int") && res != gt {
+		c.Decls = append(c.Decls, "(assert (and (bvsle (_ bv0 64) "+res+") (bvsle "+res+" (_ bv4611686018427387904 64))))")
+	}
+	if c.Mode == ModeInt && (g.Val == "mathint" || g.Val == "int") && (g.Name == "accepted" || g.Name == "wrapped" || g.Name == "spos" || g.Name == "send") && e.facts != nil {
+		// stated assumption: byte counters of readers/writers stay in [0, 2^62]
+		*e.facts = append(*e.facts, "(and (<= 0 "+res+") (<= "+res+" 4611686018427387904))")
+	}
+	return Val{T: res, Typ: t}, nil
+}
+
+// ghostTargets: the locations an "assigns ghost(x)" clause covers, including
+// the real state the ghost field is derived from for in-repo types.
+func (e *SpecEnv) ghostTargets(g *GhostDecl, v Val, depth int) ([]havocTarget, error) {
+	c := e.c
+	k, err := e.ghostKey(v)
+	if err != nil {
+		return nil, err
+	}
+	srt, _, err := e.ghostSort(g)
+	if err != nil {
+		return nil, err
+	}
+	h := c.ghostHeap(g.Name, srt)
+	out := []havocTarget{{h, k, ""}}
+	if depth >= 1 {
+		return out, nil
+	}
+	for _, d := range c.W.Specs.Derives {
+		if d.Ghost != g.Name {
+			continue
+		}
+		dt, dpkg := e.deriveType(d)
+		if dt == nil {
+			continue
+		}
+		var this Val
+		cond := ""
+		if _, isIface := v.Typ.Underlying().(*types.Interface); isIface {
+			this = Val{T: "(if.ref " + v.T + ")", Typ: dt}
+			cond = eq("(if.typ "+v.T+")", c.typeID(dt))
+		} else if types.Identical(v.Typ, dt) {
+			this = v
+		} else {
+			continue
+		}
+		ne := e.clone()
+		ne.vars["this"] = this
+		ne.bound["this"] = true
+		ne.locals = false
+		ne.pkg = dpkg
+		ne.deriveDepth = depth + 1
+		ts, err := ne.targets(d.Body)
+		if err != nil {
+			return nil, err
+		}
+		for _, te := range d.Touches {
+			ts2, err := ne.targets(te)
+			if err != nil {
+				return nil, err
+			}
+			ts = append(ts, ts2...)
+		}
+		for _, t := range ts {
+			if cond != "" {
+				t.cond = and(cond, t.cond)
+			}
+			out = append(out, t)
+		}
+	}
+	return out, nil
 }
